@@ -70,12 +70,15 @@ def main():
                     lines = [l for l in out.split('\n') if l.startswith('VIOLATION') or l.startswith(p + ' ')]
                     res['checks'][p] = {'exit': rc, 'lines': lines[:4],
                                         'quiet': rc == 0 and not any(l.startswith('VIOLATION') for l in lines)}
+                    keep = os.path.join(dst, '%s_%s_alarm.log' % (k, p))
                     if not res['checks'][p]['quiet']:
-                        keep = os.path.join(dst, '%s_%s_alarm.log' % (k, p))
                         open(keep, 'w').write(out[-6000:])
+                    elif os.path.exists(keep):
+                        os.remove(keep)          # the alarm of an earlier run is gone
         finally:
             sh('git -C /repo worktree remove --force %s' % wt)
-        shutil.copy(diff, os.path.join(dst, os.path.basename(diff)))
+        if os.path.realpath(diff) != os.path.realpath(os.path.join(dst, os.path.basename(diff))):
+            shutil.copy(diff, os.path.join(dst, os.path.basename(diff)))
         results[k] = res
     for p in pids:   # restore facts / evidence of the real tree
         sh('cd %s/harness && /venv/bin/python check.py %s --quick' % (VERIF, p))
